@@ -1408,6 +1408,138 @@ fn foreign_cases() -> Vec<ForeignCase> {
 }
 
 // ---------------------------------------------------------------------------------------------
+// user-agent set by a client interceptor, through the real Channel: the channel's own product
+// token is what the peer sees; nothing the user put under that name reaches the wire
+// ---------------------------------------------------------------------------------------------
+
+#[derive(Clone, Debug)]
+struct UaCase {
+    shape: Shape,
+    /// Endpoint::user_agent(..)
+    endpoint_ua: Option<&'static str>,
+    /// what the interceptor writes under `user-agent` (insert or append)
+    forged: &'static str,
+    append: bool,
+    /// the caller also puts it into the request metadata
+    also_request_md: bool,
+}
+
+fn ua_body(c: &UaCase, ch: &Chooser) -> Outcome {
+    use tokio_stream::StreamExt;
+    let script = Script { initial_md: vec![], msgs: vec![vec![2]], end: None, handler_err: false, bidi: BidiMode::ReadAll, disable_compression: false, exact_hint: false };
+    let (server, log) = new_server(script, ch, false);
+    let rt = tokio::runtime::Builder::new_current_thread().enable_time().build().unwrap_or_else(|e| machinery(format!("runtime: {e}")));
+    let c2 = c.clone();
+    let ch2 = ch.clone();
+    let result: Result<ClientView, String> = rt.block_on(async move {
+        let c = c2;
+        let (client_io, server_io) = tokio::io::duplex(1 << 16);
+        let incoming = tokio_stream::once(Ok::<_, std::io::Error>(server_io)).chain(tokio_stream::pending());
+        let srv = tokio::spawn(async move {
+            let _ = tonic::transport::Server::builder().add_service(server).serve_with_incoming(incoming).await;
+        });
+        let mut io = Some(client_io);
+        let connector = tower::service_fn(move |_: http::Uri| {
+            let io = io.take();
+            async move { io.map(hyper_util::rt::TokioIo::new).ok_or_else(|| std::io::Error::other("the pipe was already taken")) }
+        });
+        let mut ep = tonic::transport::Endpoint::from_static("http://l2.test:50051");
+        if let Some(ua) = c.endpoint_ua {
+            ep = ep.user_agent(ua).map_err(|e| format!("user_agent: {e}"))?;
+        }
+        let channel = ep.connect_with_connector(connector).await.map_err(|e| format!("connect failed: {e}"))?;
+        let (forged, append) = (c.forged, c.append);
+        let mut client = EchoClient::with_interceptor(channel, move |mut r: tonic::Request<()>| {
+            let v: tonic::metadata::MetadataValue<tonic::metadata::Ascii> = forged.parse().unwrap();
+            if append {
+                r.metadata_mut().append("user-agent", v);
+            } else {
+                r.metadata_mut().insert("user-agent", v);
+            }
+            Ok(r)
+        });
+        let req_md: Md = if c.also_request_md { vec![a("user-agent", forged), a("x-a", "1")] } else { vec![a("x-a", "1")] };
+        let view = client_call_intercepted(&mut client, c.shape, &req_md, &ch2).await;
+        srv.abort();
+        Ok(view)
+    });
+    drop(rt);
+    let view = match result {
+        Ok(v) => v,
+        Err(e) => machinery(format!("L2 environment failed: {e}")),
+    };
+    let log = log.lock().unwrap().clone();
+    let seen: Vec<String> = log.req_md.as_ref().map(|h| h.get_all("user-agent").iter().map(|v| String::from_utf8_lossy(v.as_bytes()).to_string()).collect()).unwrap_or_default();
+    let mut o = Outcome::new(format!("handler_calls={} user-agent values seen by the handler: {}", log.calls, seen.len()));
+    o.nontrivial = true;
+    if log.calls != 1 || view.error.is_some() {
+        o.violate("ua-call-failed", format!("the call did not reach the handler / failed: calls={} error={:?}", log.calls, view.error.as_ref().map(crate::env::fmt_status)));
+        return o;
+    }
+    if seen.iter().any(|v| v.contains(c.forged)) {
+        o.violate("request-wire-forged-user-agent", format!("the handler sees user-agent {:?}: the value {:?} written by the client's interceptor reached the wire", seen, c.forged));
+    }
+    if let Some(ua) = c.endpoint_ua {
+        if !seen.iter().any(|v| v.contains(ua)) {
+            o.violate("endpoint-user-agent-missing", format!("Endpoint::user_agent({ua:?}) is configured but the handler sees {:?}", seen));
+        }
+    }
+    if log.req_md.as_ref().and_then(|h| h.get("x-a")).map(|v| v.as_bytes()) != Some(b"1") {
+        o.violate("request-peer-values-ascii", "the ordinary entry x-a=1 next to the forged user-agent did not arrive".to_string());
+    }
+    o
+}
+
+/// `client_call` for a client wrapped in an interceptor (only the shapes' unary-request forms are needed).
+async fn client_call_intercepted<F>(client: &mut EchoClient<tonic::service::interceptor::InterceptedService<tonic::transport::Channel, F>>, shape: Shape, req_md: &Md, _ch: &Chooser) -> ClientView
+where
+    F: tonic::service::Interceptor,
+{
+    let mut view = ClientView::default();
+    let mut req = tonic::Request::new(vec![1u8]);
+    apply_md(req.metadata_mut(), req_md);
+    match shape {
+        Shape::ServerStream => match client.server_stream(req).await {
+            Err(e) => view.error = Some(e),
+            Ok(resp) => {
+                let mut s = resp.into_inner();
+                loop {
+                    match s.message().await {
+                        Ok(Some(m)) => view.msgs.push(m),
+                        Ok(None) => break,
+                        Err(e) => {
+                            view.error = Some(e);
+                            break;
+                        }
+                    }
+                }
+            }
+        },
+        _ => match client.unary(req).await {
+            Err(e) => view.error = Some(e),
+            Ok(resp) => view.msgs.push(resp.into_inner()),
+        },
+    }
+    view
+}
+
+fn ua_cases() -> Vec<UaCase> {
+    let mut out = vec![];
+    for shape in [Shape::Unary, Shape::ServerStream] {
+        for endpoint_ua in [None, Some("app/2.0")] {
+            for forged in ["evil/1", "grpc-go/9.9"] {
+                for append in [false, true] {
+                    for also_request_md in [false, true] {
+                        out.push(UaCase { shape, endpoint_ua, forged, append, also_request_md });
+                    }
+                }
+            }
+        }
+    }
+    out
+}
+
+// ---------------------------------------------------------------------------------------------
 // an error status that reaches tonic wrapped inside another error (what a tower layer or a
 // transport hands over): whatever path finds the status must keep its metadata
 // ---------------------------------------------------------------------------------------------
@@ -1579,6 +1711,15 @@ pub fn property(tier: Tier) -> Property {
         foreign_body,
     )
     .mins(10, 3, 8);
+    let ua = Section::new(
+        "interceptor-user-agent",
+        Config::default(),
+        "cases: generated client with an interceptor that inserts / appends a user-agent value (and optionally the caller's request metadata carrying it too), with and without Endpoint::user_agent, unary and server-streaming, through the real Channel -> hyper/h2 -> in-memory pipe -> tonic server; oracle: the call succeeds, no user-agent value the handler sees contains what the user wrote, the configured endpoint product token is there, an ordinary entry next to it arrives. All cases count as non-trivial.",
+        ua_cases(),
+        |c: &UaCase| format!("{c:?}"),
+        ua_body,
+    )
+    .mins(20, 1, 20);
     let wrapped = Section::new(
         "wrapped-status",
         Config::default(),
@@ -1609,7 +1750,7 @@ pub fn property(tier: Tier) -> Property {
             "forgery is judged by value: the values attached under reserved names are chosen so that tonic never legitimately sends them (status code 9, message 'm 9%')".into(),
             "wire-l2 judges the peer's view only (the bytes inside the h2 connection are not captured)".into(),
         ],
-        sections: vec![wire_l1, wire_l2, padded, merge, accessors, foreign, wrapped],
+        sections: vec![wire_l1, wire_l2, padded, merge, accessors, foreign, wrapped, ua],
         extra: Default::default(),
     }
 }
